@@ -64,9 +64,16 @@ func TestVerifC06Jump(t *testing.T) {
 	var evals int64
 	moved := make([]int64, maxN+2)
 	var keys uint64
+	// (the sweep calls the function outside any scheduler execution: it reports its own progress
+	// to the watchdog, so that a hash that never returns for some key is a verdict, not a hang)
+	vrt.WatchBegin("jump-hash sweep")
+	defer vrt.WatchEnd()
 	for _, rg := range mine {
 		for k := rg.a; k < rg.b; k++ {
 			keys++
+			if keys&0xffff == 0 {
+				vrt.Beat()
+			}
 			prev := jumpHash(k, 1)
 			if prev != 0 {
 				r.Violate("C06/jump/out-of-range", fmt.Sprintf("jumpHash(%d,1) = %d", k, prev), 1, map[string]interface{}{"key": k, "n": 1})
